@@ -108,13 +108,16 @@ def verify_function(c, extra_options=None):
             raise BindingFailure(f"{c.short}: source has {len(fs.loops)} loops, sidecar expects {c.options['nloops']}")
         st = entry_state(ex, c, fs)
         for nm, e in c.requires.items():
-            st.assume(zbool(ex.spec_eval(e, st)))
+            st.assume(zbool(ex.spec_eval(e, st)), tag=f"req:{nm}")
         # vacuity: the precondition must be satisfiable
         ctx.obls.append(Obl(f"{c.short}/vacuity/requires", "vacuity", list(st.pc), z3.BoolVal(True), expect="sat", model=ctx.fm.name))
         if c.entry_hints:
             ex.apply_hints(st, c.entry_hints, fs.path)
         outs = ex.exec_block(fs.body, st)
         res.paths = len(outs)
+        missing = set(c.anchors) - getattr(ctx, "anchors_hit", set())
+        if missing:
+            raise BindingFailure(f"{c.short}: ghost anchors not found in the source: {sorted(missing)}")
         nret = 0
         for cur, oc in outs:
             if oc.kind == NORMAL:
